@@ -10,7 +10,7 @@ The tie to the C++ is `tools/props/c15.py` (model vs. real `convert_units`/`add_
 metamorphic pairs on the real engine).
 -/
 namespace PhreeqcVerif.Units
-open Std
+open Std Txt
 
 /-! ## unit changes -/
 
@@ -258,21 +258,17 @@ theorem convert_idempotent (p : Params) (comps : List Comp) (hminor : ∀ c ∈ 
   · exact h
 
 /-! ## the text of the input: unit spellings, `check_units`, the string tests of `convert_units` -/
-open Txt in
 /-- every documented spelling of a unit is accepted by both copies of `check_units` and denotes the same unit -/
 theorem documented_spellings_ok : ∀ p ∈ documentedSpellings, ∀ v : Bool,
     (checkUnits v p.1.toList false false []).bind Unit.ofChars = some p.2 := by decide +kernel
 
-open Txt in
 /-- the 27 canonical names are fixed points of the normalisation -/
 theorem canonical_fixed : ∀ u ∈ Unit.all, ∀ v : Bool, normalise v u.str.toList = u.str.toList := by decide +kernel
 
-open Txt in
 /-- the `units[]` table is exactly the 27 structured units; decoding inverts printing -/
 theorem unit_table_complete : (∀ s ∈ unitTable, (Unit.ofChars s.toList).isSome) ∧ (∀ u ∈ Unit.all, u.str ∈ unitTable) ∧
     (∀ u ∈ Unit.all, Unit.ofChars u.str.toList = some u) := by decide +kernel
 
-open Txt in
 /-- the `strstr` / first-character tests `convert_units` makes on the canonical names are the structural predicates of the model -/
 theorem string_tests_agree : ∀ u ∈ Unit.all,
     sPreFactor u.str.toList = u.preFactor ∧ sGramPerSolution u.str.toList = u.gramPerSolution ∧
@@ -280,7 +276,6 @@ theorem string_tests_agree : ∀ u ∈ Unit.all,
     sPerL u.str.toList = (u.den == .perL) ∧ sPerSolution u.str.toList = (u.den == .perKgs || u.den == .perL) := by
   decide +kernel
 
-open Txt in
 /-- the default-units fix-up of the model is `check_units` with the compatibility check, on all 27 × 27 × 2 inputs -/
 theorem fixup_is_check_units : ∀ own ∈ Unit.all, ∀ dflt ∈ Unit.all, ∀ alk : Bool,
     checkUnits false own.str.toList alk true dflt.str.toList = (fixupUnit dflt (some own) alk).map (·.str.toList) := by
@@ -289,7 +284,6 @@ theorem fixup_is_check_units : ∀ own ∈ Unit.all, ∀ dflt ∈ Unit.all, ∀ 
 /-- **SOLUTION_SPREAD rows versus SOLUTION blocks.** When every column string parses (and no heading starts with a
 lower-case letter), the components read from a SPREAD row are the components read from the SOLUTION block whose lines are
 `heading datum unit-cell`. -/
-open Txt in
 theorem spread_row_eq_block (cells : List (List Char × List Char × List Char))
     (hup : ∀ c ∈ cells, isLowerFirst ((tokens (spreadCell c.1 c.2.1 c.2.2)).headD []) = false)
     (hok : ∀ c ∈ cells, (readCompLine (spreadCell c.1 c.2.1 c.2.2)).isSome) :
@@ -307,21 +301,15 @@ theorem spread_row_eq_block (cells : List (List Char × List Char × List Char))
     rw [ih']
     rfl
 
-open Txt in
 example : readCompLine "  S(6)  20 mg/L as SO4".toList =
     some ⟨"S(6)".toList, 20, some "mg/l".toList, "SO4".toList, 0, []⟩ := by decide +kernel
-open Txt in
 example : readCompLine (spreadCell "Alkalinity".toList "50.5".toList "mg/kg water as CaCO3".toList) =
     some ⟨"Alkalinity".toList, 101/2, some "mg/kgw".toList, "CaCO3".toList, 0, []⟩ := by decide +kernel
-open Txt in
 example : readCompLine "C(+4) 2.5e-3 Mol/kgw gfw 61.0 pe".toList =
     some ⟨"C(4)".toList, 1/400, some "Mol/kgw".toList, [], 61, ["pe".toList]⟩ := by decide +kernel
-open Txt in
 example : readCompLine "Fe(2) Fe(3) 1 ug/l".toList = some ⟨"Fe(2) Fe(3)".toList, 1, some "ug/l".toList, [], 0, []⟩ := by decide +kernel
-open Txt in
 example : readCompLine "Na".toList = none ∧ readCompLine "Na x".toList = none ∧ readCompLine "na 1".toList = none := by decide +kernel
 /-- the weight of `Ca0.5(CO3)0.5` from the element table, through the formula parser -/
-open Txt in
 example : gfwOfFormula (fun s => if s = "Ca" then some (4008/100) else if s = "C" then some (120111/10000) else
     if s = "O" then some 16 else none) "Ca0.5(CO3)0.5" = some (5004555/100000) := by decide +kernel
 
